@@ -5,12 +5,16 @@ import warnings
 
 ID = 'C17'
 LEVEL = 'proof'
-CONTRACTS = ['contracts.explainer']
+CONTRACTS = ['contracts.explainer', 'contracts.batch']
 _F = {'fault_mode': True}
 _CL = ['estimates_untouched', 'inv:Eff']
 CLOSURE = [
     {'fn': 'IncrementalPFI.explain_one', 'opts': _F, 'clauses': _CL, 'safety': False, 'tag': 'faults'},
     {'fn': 'IncrementalSage.explain_one', 'opts': _F, 'clauses': _CL, 'safety': False, 'tag': 'faults'},
+    {'fn': 'BatchExplainer.explain_many', 'opts': _F, 'clauses': _CL, 'safety': False, 'tag': 'faults'},
+    {'fn': 'BatchExplainer.explain_many_original', 'opts': _F, 'clauses': _CL, 'safety': False, 'tag': 'faults'},
+    {'fn': 'BatchSage.explain_one', 'opts': _F, 'clauses': _CL, 'safety': False, 'tag': 'faults'},
+    {'fn': 'IntervalSage.explain_one', 'opts': _F, 'clauses': _CL, 'safety': False, 'tag': 'faults'},
 ]
 EXPLANATION = ("Fault mode: every callback call event (model, loss) and every interface call (imputer.impute, storage.update, "
                "storage.get_data) forks into 'returns' and 'raises'; the fault position is a symbolic choice, so all positions are "
